@@ -41,8 +41,10 @@ def gen_case(rng, profile):
     if rng.chance(60):
         ops.append("k")
         nclones += 1
-    for _ in range(n):
+    for i in range(n):
         k = rng.weighted(pairs)
+        if k in ("T", "X") and profile != "term" and 3 * i < 2 * n:
+            k = "u"   # keep the root alive for most of the schedule
         if k in ("c", "d", "s", "r"):
             ops.append("%s %d" % (k, rng.below(NL)))
         elif k == "q":
@@ -111,8 +113,31 @@ def corpus():
     ]
 
 
+def soak(V, tier, seed):
+    """Real threads: publishers on the root gate and on clones, queue and direct links churning, clones created and
+    dropped, then Terminate; the recorded per-link sequences are judged by the harness (see c08.rs: soak)."""
+    import subprocess
+    runs = [(1200, seed % 1000 + i) for i in range(3)] if tier == "quick" else [(8000, seed % 1000 + i) for i in range(8)]
+    r = {"name": "c08-soak", "evaluations": 0, "coverage": {"runs": []}, "failures": []}
+    for millis, sd in runs:
+        try:
+            p = subprocess.run([V.VH, "c08-soak", str(millis), str(sd)], stdout=subprocess.PIPE, stderr=subprocess.DEVNULL,
+                               text=True, timeout=60 + millis // 100)
+            out = p.stdout.strip() or f"no verdict (rc={p.returncode})"
+        except subprocess.TimeoutExpired:
+            out = "bad soak did not finish (deadlock?)"
+        r["evaluations"] += 1
+        r["coverage"]["runs"].append({"millis": millis, "seed": sd, "result": out[:300]})
+        if not out.startswith("ok"):
+            r["failures"].append({"what": f"multi-thread soak: {out[:300]}", "kind": "property",
+                                  "replay_cmd": f"{V.VH} c08-soak {millis} {sd}  (schedule-dependent: repeat a few times)",
+                                  })
+            break
+    return r
+
+
 ENGINES = [{"name": "c08", "gen": gen, "corpus": corpus, "nontrivial": nontrivial, "classify": classify, "shards": 8}]
-EXTRAS = []
+EXTRAS = [soak]
 
 LEVEL_TEXT = ("Theorems over ALL schedules (arbitrary action lists) of an interleaving model of Gate/Link/DirectLink: per link and "
               "publisher deliveries strictly increase (at most once, in order), every finished update reached every slot of the "
